@@ -32,15 +32,15 @@ Om == Imp(cs.k, cs.c0)
 U  == UField(cs.up)
 P3 == IF ThirdStageHalf THEN cs.p \div 2 ELSE cs.p
 
-SspIsPoly == cs.p # 0 => LET om == TLCEval(Om) u == TLCEval(U) IN SSPRK3x12(om, u, cs.p, P3) = Poly3x12(om, u, cs.p)
+SspIsPoly == cs.p # 0 => LET om == DeepV(Om) u == DeepV(U) IN SSPRK3x12(om, u, cs.p, P3) = Poly3x12(om, u, cs.p)
 
 \* Euler forward is affine in the step it is given (no hidden rescaling of the step)
 EulerLinearInStep == cs.p # 0 =>
-    LET om == TLCEval(Om) u == TLCEval(U)
+    LET om == DeepV(Om) u == DeepV(U)
         e1 == StretchEuler(om, u, cs.p)
         e2 == StretchEuler(om, u, 2 * cs.p)
     IN  \A k \in 1..3 : \A c \in Cells : e2[k][c] - Om[k][c] = 2 * (e1[k][c] - Om[k][c])
 
 \* vacuity: the cubic term must matter somewhere (A^3 omega /= 0 for some case)
-CubicVanishes == cs.p # 0 => LET om == TLCEval(Om) u == TLCEval(U) a3 == A(TLCEval(A(TLCEval(A(om, u, 1)), u, 1)), u, 1) IN \A k \in 1..3 : \A c \in Cells : a3[k][c] = 0
+CubicVanishes == cs.p # 0 => LET om == DeepV(Om) u == DeepV(U) a3 == A(DeepV(A(DeepV(A(om, u, 1)), u, 1)), u, 1) IN \A k \in 1..3 : \A c \in Cells : a3[k][c] = 0
 =============================================================================
